@@ -463,6 +463,7 @@ class HTTPChannel(wasyncore.dispatcher):
                 # copy some original request attributes to fulfill
                 # HTTP 1.1 requirements
                 err_request.version = req_version
+                err_request.command = getattr(request, "command", None)
                 try:
                     err_request.headers["CONNECTION"] = req_headers["CONNECTION"]
                 except KeyError:
